@@ -23,7 +23,7 @@ TRUSTED = ['T1 pyvc model of Python (DESIGN 3)', 'T6 kvfile.KVFile is a map (get
            'returns the value; items() enumerates every stored pair once, in key order)', 'T16 z3 / cvc5']
 ASSUMPTIONS = ['cell arithmetic (+, /, max, min) is uninterpreted and identical on the code and spec side',
                'median (sorting) and counters (collections.Counter) are covered by the bounded differential only',
-               'the on-disk spill of the index beyond 10240 keys is kvfile\'s (T6), exercised in the thorough tier']
+               'the on-disk spill of the index beyond 10240 keys is kvfile\'s (T6), exercised by one >10240-key run per check (more in the thorough tier)']
 
 AGGS = ['sum', 'avg', 'median', 'max', 'min', 'first', 'last', 'count', 'any', 'set', 'array']
 
@@ -431,9 +431,11 @@ def nat_join(h):
                 'max': lambda: max(nn), 'min': lambda: min(nn), 'first': lambda: nn[0], 'last': lambda: nn[-1],
                 'any': lambda: nn[-1]}[agg]()
     aggs = ['sum', 'avg', 'median', 'max', 'min', 'first', 'last', 'count', 'set', 'array', 'counters']
-    for _ in range(h.n(60, 600)):
+    for case in range(h.n(60, 600)):
         ns = h.rng.randint(0, 12) if h.tier == 'quick' or h.rng.random() < 0.95 else 10400
         nt = h.rng.randint(0, 8)
+        if case == 0:
+            ns, nt = 10400, 8      # one run per check with more distinct keys than the index keeps in memory (10240)
         keys = ['a', 'b', 'c', None] if ns < 100 else ['k%d' % i for i in range(ns)]
         if ns < 100 and h.rng.random() < 0.3:
             # values that compare equal in Python but render differently are different keys
